@@ -146,7 +146,7 @@ TEXT = {
              "position before dispatch) + differential runs of ParseFirewallRules and handleMessageData with literal and regex rules.",
         note=BASE_NOTE + "Go regexp trusted for full syntax; the correspondence uses a regex subset rendered from ASTs."),
     "C01": dict(
-        text="Algorithm layer at full strength: lc_correct_every_schedule (labels = least walk weights for every graph and every pop "
+        text="Theorems lc_terminates_every_schedule and lc_completes (the table computation stops for every graph with finitely many nodes and every pop order, and reaches a state with an empty queue) in addition to: Algorithm layer at full strength: lc_correct_every_schedule (labels = least walk weights for every graph and every pop "
              "order of the label-correcting loop), nexthop_valid, table_has_reachable / table_drops_unreachable, hop_decreases_distance, "
              "walk_loop_free; silent_link_expires / live_link_kept for connection aging; protocol layer flood_round_truth_partial "
              "(one flooding round from a quiescent state: every node of the component holds the origin's true adjacency, for every "
